@@ -66,6 +66,10 @@ type ExecDouble struct {
 	inFlightExec atomic.Int64
 	inFlightFin  atomic.Int64
 	inFlightGet  atomic.Int64
+	// RootFn, if set, replaces RootAfter as the state root a successful ExecuteTxs returns (not used with Stateful). It
+	// must be a function of its arguments (an execution layer is deterministic); it may return nil or an empty slice:
+	// the interface does not promise a root of any particular length.
+	RootFn func(height uint64, prevRoot []byte, txs [][]byte) []byte
 }
 
 // InFlightGetTxs returns how many GetTxs calls are currently waiting inside the double.
@@ -212,6 +216,9 @@ func (e *ExecDouble) ExecuteTxs(ctx context.Context, txs [][]byte, blockHeight u
 		return nil, 0, context.Canceled
 	}
 	root := RootAfter(prevStateRoot, txs)
+	if e.RootFn != nil {
+		root = e.RootFn(blockHeight, prevStateRoot, txs)
+	}
 	if e.Stateful {
 		if e.stByBlock == nil {
 			e.stByBlock = map[string][]byte{}
